@@ -116,6 +116,9 @@ func c19Sig(o *rt.Outcome) string {
 		}
 	}
 	fmt.Fprintf(&b, "status=%d hdr[%s] body=%q", o.Status, headerSig(h), body)
+	if len(o.Rec.Flushes) > 0 {
+		fmt.Fprintf(&b, " flushed-at=%v", o.Rec.Flushes)
+	}
 	for _, iv := range o.Obs.Invokes {
 		fmt.Fprintf(&b, " invoke(rid=%d params=%v sel=%d %s %s body=%q)", iv.RID, sortedParams(iv.Params), iv.SelRID, iv.SelMethod, iv.SelPath, iv.Body)
 	}
@@ -127,7 +130,7 @@ func c19Sig(o *rt.Outcome) string {
 
 func c19(ctx *core.Ctx) {
 	quietLogs()
-	ctx.Rule("generated configurations (route table on the router's full template fragment, recording filters at all three levels labelled with their route/service, a filter writing a per-request attribute and a per-request key into PathParameters(), a HandleWithFilter handler, handlers that read the raw request body, an echo route reading gzip-encoded entities that arrive in small slices, 0-5 extra container filters, CORS filter with configured or computed methods, OPTIONS filter, content encoding, handlers writing raw bytes or negotiated entities; both routers; Dispatch or ServeHTTP). For each request of a multiset of 40 (hits, near misses, adversarial, malformed Accept, CORS actual and preflight requests for different URLs, Accept-Encoding) the reference is the answer of a FRESH container to that request alone through the same entry point. Then (a) a 200-request sequential history in random order with repetitions, every 5th step preceded by the same request from a client whose connection fails on every body write, (b) batches released together from 16 goroutines, (c) the sequential history again with trace logging on: status, all headers, decoded body, path parameters, selected route and attributes seen by every filter/handler must equal the reference. Race detector on. Non-trivial = a compared response of a request that ran at least one filter or handler; distinct by (configuration shape, phase, outcome class).")
+	ctx.Rule("generated configurations (route table on the router's full template fragment, recording filters at all three levels labelled with their route/service, a filter writing a per-request attribute and a per-request key into PathParameters(), a HandleWithFilter handler, handlers that read the raw request body, an echo route reading gzip-encoded entities that arrive in small slices, 0-5 extra container filters, CORS filter with configured or computed methods, OPTIONS filter, content encoding, handlers writing raw bytes or negotiated entities, streaming handlers that Flush their first chunk, handlers switching PrettyPrint off for their own entity; both routers; Dispatch or ServeHTTP). For each request of a multiset of 40 (hits, near misses, adversarial, malformed Accept, CORS actual and preflight requests for different URLs, Accept-Encoding) the reference is the answer of a FRESH container to that request alone through the same entry point. Then (a) a 200-request sequential history in random order with repetitions, every 5th step preceded by the same request from a client whose connection fails on every body write, (b) batches released together from 16 goroutines, (c) the sequential history again with trace logging on: status, all headers, decoded body, path parameters, selected route and attributes seen by every filter/handler must equal the reference. Race detector on. Non-trivial = a compared response of a request that ran at least one filter or handler; distinct by (configuration shape, phase, outcome class).")
 	ctx.Assume("the reference is per (request, entry point): ServeHTTP answers unregistered prefixes from net/http's mux")
 	defer restful.EnableTracing(false)
 	configs := ctx.N(50, 1500)
@@ -228,6 +231,19 @@ func c19(ctx *core.Ctx) {
 			}
 			if r.Chance(1, 3) {
 				req.Hdr["Accept-Encoding"] = r.Pick([]string{"gzip", "deflate", "gzip, deflate"})
+			}
+			// handlers that use per-response facilities: a streaming handler flushing its first chunk, a handler that
+			// switches pretty printing off for its own entity
+			switch {
+			case q%10 == 9:
+				req.Hdr["X-Do"] = "flush"
+			case q == 33 || q == 38:
+				req = rt.HitReq(r, &t.Svcs[0], neg)
+				if req.Hdr == nil {
+					req.Hdr = map[string]string{}
+				}
+				req.HasAcc, req.Accept = true, r.Pick([]string{restful.MIME_JSON, restful.MIME_XML})
+				req.Hdr["X-Do"] = "pretty-off"
 			}
 			req.Hdr["X-Req"] = fmt.Sprintf("q%d", q)
 			reqs = append(reqs, req)
